@@ -158,6 +158,34 @@ theorem optics_core_distance_index_independent (nbrs nbrs' : Nat → List Nat) (
     coreDist dist mp i (findNeighbors nbrs dist i) = coreDist dist mp i (findNeighbors nbrs' dist i) := by
   rw [coreDist_eq, coreDist_eq, sorted_dists_unique nbrs nbrs' dist i h]
 
+/-- `F::max` of the model is `max` of the order -/
+theorem fmax_eq_max (a b : D) : fmax a b = max a b := by
+  unfold fmax
+  by_cases h : a < b
+  · rw [if_pos h, max_eq_right (le_of_lt h)]
+  · rw [if_neg h, max_eq_left (not_lt.mp h)]
+
+/-- **reachability**: the reachability distance of a listed sample `e` is undefined, or it equals
+`max(core distance of o, dist(e, o))` for a sample `o` that is listed **strictly earlier** (position
+`q < p`), is a core sample (`o.core = some c`) and has `e` in range (`e.index ∈ nbrs o.index`).
+This is the statement's clause "either undefined or equals max(core distance of o, distance to o) for
+some core point o within the tolerance that is listed no later than the sample". -/
+theorem optics_reachability_witness (nbrs : Nat → List Nat) (dist : Nat → Nat → D) (mp n : Nat)
+    (hrange : ∀ i, ∀ j ∈ nbrs i, j < n) :
+    ∀ (p : Nat) (e : Entry D), (optics (some nbrs) dist mp n)[p]? = some e → ∀ r : D, e.reach = some r →
+      ∃ (q : Nat) (o : Entry D) (c : D), q < p ∧ (optics (some nbrs) dist mp n)[q]? = some o ∧ o.core = some c ∧
+        e.index ∈ nbrs o.index ∧ r = max c (dist e.index o.index) := by
+  intro p e he r hr
+  have h := Optics.foldl_RInv n nbrs dist mp hrange n (Nat.le_refl n)
+  obtain ⟨o, ho, c, h1, h2, h3⟩ := h.listed p e he r hr
+  obtain ⟨q, hq⟩ := List.mem_iff_getElem?.mp ho
+  rw [List.getElem?_take] at hq
+  by_cases hqp : q < p
+  · rw [if_pos hqp] at hq
+    exact ⟨q, o, c, hqp, hq, h1, h2, by rw [h3, fmax_eq_max]⟩
+  · rw [if_neg hqp] at hq
+    exact absurd hq (by simp)
+
 end optics
 
 /-- **OPTICS lists every sample exactly once**: no position occurs twice in the ordering and the
@@ -204,6 +232,18 @@ example : Optics.coreDist exDist 3 0 (Optics.findNeighbors (fun _ => [0, 2, 4, 3
 example : Optics.coreDist exDist 3 0 [0, 2, 3, 4] = some 5 := by decide
 example : ([0, 2, 3, 4] : List Nat).Perm [0, 2, 4, 3] := by decide
 
+
+/-- non-vacuity of `optics_reachability_witness`: two samples at distance 6 within the tolerance,
+`min_points = 2`: sample 0 starts (core distance 6, reachability undefined), sample 1 follows with
+reachability `6 = max(core(0), dist(1,0))`, witness sample 0 listed before it. -/
+example : ((Optics.optics (some fun _ => [0, 1]) exDist 2 2).map fun e => (e.index, e.core, e.reach)) =
+    [(0, some 6, none), (1, some 6, some 6)] := by
+  simp [Optics.optics, Optics.outerStep, Optics.seedLoop, Optics.seedStep, Optics.getSeeds, Optics.init,
+    Optics.coreDist, Optics.findNeighbors, Optics.isProcessed, Optics.setCore, Optics.setReach,
+    Optics.getReach, Optics.fmax, Optics.argminPos, exDist, List.range, List.range.loop,
+    List.mergeSort, List.MergeSort.Internal.splitInTwo]
+example : ∀ i, ∀ j ∈ (fun _ : Nat => [0, 1]) i, j < 2 := by
+  intro i j h; simp at h; omega
 
 /-- records without features (the index constructor reports `ZeroDimension`): DBSCAN returns one
 `None` per sample (this is the behaviour recorded as finding `C08-zero-features-dbscan`) -/
